@@ -185,3 +185,12 @@ def sqla_case_triggers(variant_text):
             re.search(r"(?i)\btrue\b", variant_text) and not re.search(r"\btrue\b", variant_text):
         keys.append("sqla-boolean-literal-case")
     return keys
+
+
+def refusal_triggers(kname, pos, backend, t):
+    """C12 findings are matrix cells: (node kind, backend family)."""
+    fam = "sql" if backend.startswith("sql-") else backend
+    keys = ["cell:%s@%s" % (kname, fam), "cell:%s|%s@%s" % (kname, pos, fam)]
+    if any(n[0] == "call" and any(a[0] == "list" for a in n[2]) for n in T.walk(t)):
+        keys.append("list-argument@%s" % fam)
+    return keys
